@@ -36,8 +36,11 @@ pub struct Cfg {
     defaults_layer: bool,
     retry_on_reconnect: bool,
     predicate: bool,
-    /// sequential requests; each: per-attempt (latency us, outcome 0 ok / 1 reconnectable / 2 other)
+    /// requests; each: per-attempt (latency us, outcome 0 ok / 1 reconnectable / 2 other)
     reqs: Vec<Vec<(u64, u8)>>,
+    /// 1 = one sequential client; 2 = two clients on clones of the service (same layer state),
+    /// request i belongs to client i % 2
+    drivers: usize,
 }
 
 pub fn gen(rng: &mut Prng) -> Cfg {
@@ -73,7 +76,7 @@ pub fn gen(rng: &mut Prng) -> Cfg {
         }
         reqs.push(s);
     }
-    Cfg { pol: pol.clone(), wrapped: !matches!(pol, Pol::None) && !defaults_layer && rng.chance(0.6), max_attempts, defaults_layer, retry_on_reconnect: defaults_layer || rng.chance(0.8), predicate, reqs }
+    Cfg { pol: pol.clone(), wrapped: !matches!(pol, Pol::None) && !defaults_layer && rng.chance(0.6), max_attempts, defaults_layer, retry_on_reconnect: defaults_layer || rng.chance(0.8), predicate, reqs, drivers: if rng.chance(0.3) { 2 } else { 1 } }
 }
 
 fn policy(p: &Pol) -> ReconnectPolicy {
@@ -137,25 +140,30 @@ pub fn run(cfg: &Cfg, seed: u64) -> (Arc<World>, crate::sim::SimStats) {
             ReconnectLayer::new(b.build())
         };
         let state = layer.state().clone();
-        let mut svc = layer.layer(w.probe(1));
-        let reqs = cfg.reqs.clone();
-        let w2 = w.clone();
-        let state2 = state.clone();
-        let a = sim.actor(0, move || {
-            boxed(async move {
-                for (i, script) in reqs.iter().enumerate() {
-                    let id = i as u64 + 1;
-                    let steps: Vec<Step> = script.iter().map(|(l, o)| Step { lat: Lat::Us(*l), out: match o { 0 => Out::Ok, 1 => Out::Err(1), _ => Out::Err(2) } }).collect();
-                    let req = Req::new(id, 0, steps);
-                    w2.log(Ev::Arrive { req: id });
-                    let o = crate::actors::do_call(&w2, &mut svc, req, false, &map_err).await;
-                    w2.log(Ev::Listener { name: "state-after-call".into(), a: st(state2.state()), b: matches!(o, Outcome::Ok { .. }) as u64 });
-                    tokio::time::sleep(Duration::from_micros(500)).await;
-                }
-                w2.note("driver-done");
-            })
-        });
-        sim.start_at(0, a);
+        let svc0 = layer.layer(w.probe(1));
+        let mut drivers = vec![];
+        for d in 0..cfg.drivers {
+            let mut svc = svc0.clone();
+            let reqs: Vec<(u64, Vec<(u64, u8)>)> = cfg.reqs.iter().enumerate().filter(|(i, _)| i % cfg.drivers == d).map(|(i, s)| (i as u64 + 1, s.clone())).collect();
+            let w2 = w.clone();
+            let state2 = state.clone();
+            let a = sim.actor(9000 + d as u64, move || {
+                boxed(async move {
+                    for (id, script) in reqs.iter() {
+                        let id = *id;
+                        let steps: Vec<Step> = script.iter().map(|(l, o)| Step { lat: Lat::Us(*l), out: match o { 0 => Out::Ok, 1 => Out::Err(1), _ => Out::Err(2) } }).collect();
+                        let req = Req::new(id, 0, steps);
+                        w2.log(Ev::Arrive { req: id });
+                        let o = crate::actors::do_call(&w2, &mut svc, req, false, &map_err).await;
+                        w2.log(Ev::Listener { name: format!("state-after-call:{id}"), a: st(state2.state()), b: matches!(o, Outcome::Ok { .. }) as u64 });
+                        tokio::time::sleep(Duration::from_micros(500)).await;
+                    }
+                    w2.note("driver-done");
+                })
+            });
+            sim.start_at(0, a);
+            drivers.push(a);
+        }
         // sampler: published connection state every 500us of virtual time
         let w3 = w.clone();
         let smp = sim.actor(9999, move || {
@@ -169,7 +177,9 @@ pub fn run(cfg: &Cfg, seed: u64) -> (Arc<World>, crate::sim::SimStats) {
         sim.start_at(0, smp);
         let total: u64 = cfg.reqs.iter().map(|s| s.iter().map(|x| x.0 + 6_000_000).sum::<u64>()).sum();
         sim.at(total.min(200_000_000), What::Drop(smp));
-        sim.at(total.min(200_000_000), What::Drop(a));
+        for a in drivers {
+            sim.at(total.min(200_000_000), What::Drop(a));
+        }
         sim.horizon = total + 1_000_000;
         sim.p_spurious = 0.0;
         sim.poll_cap = 2_000_000;
@@ -203,7 +213,7 @@ pub fn scenario(sseed: u64, _tier: Tier) -> Report {
     if stats.hit_poll_cap {
         rep.inconclusive = Some("poll cap".into());
     }
-    if !log.iter().any(|r| matches!(&r.ev, Ev::Note { what } if what == "driver-done")) && rep.violations.is_empty() {
+    if log.iter().filter(|r| matches!(&r.ev, Ev::Note { what } if what == "driver-done")).count() < cfg.drivers && rep.violations.is_empty() {
         rep.inconclusive = Some("driver did not finish".into());
     }
     rep.case = json!({"cfg": format!("{cfg:?}")});
@@ -225,7 +235,14 @@ pub fn judge(cfg: &Cfg, log: &[Rec]) -> Report {
         let mut state_after: Option<(u64, bool)> = None;
         // state samples while a reconnectable failure is being handled
         let mut handling = false;
+        // the policy is asked in the same poll as the failure it follows: attribute a delay to
+        // this request only while no other inner event has intervened
+        let mut just_exited = false;
         for r in log {
+            match &r.ev {
+                Ev::InnerEnter { req, .. } | Ev::InnerExit { req, .. } | Ev::Resolve { req, .. } if *req != id => just_exited = false,
+                _ => {}
+            }
             match &r.ev {
                 Ev::InnerEnter { req, serial, .. } if *req == id => {
                     atts.push((r.t, *serial, None));
@@ -241,8 +258,10 @@ pub fn judge(cfg: &Cfg, log: &[Rec]) -> Report {
                     };
                     handling = reconnectable;
                     delays.push(None);
+                    just_exited = true;
                 }
-                Ev::Listener { name, b, .. } if name == "policy-delay" && resolved.is_none() && !atts.is_empty() && atts.last().unwrap().2.is_some() => {
+                Ev::Listener { name, b, .. } if name == "policy-delay" && just_exited && resolved.is_none() && !atts.is_empty() && atts.last().unwrap().2.is_some() => {
+                    just_exited = false;
                     if let Some(d) = delays.last_mut() {
                         *d = Some(*b);
                     }
@@ -251,10 +270,10 @@ pub fn judge(cfg: &Cfg, log: &[Rec]) -> Report {
                     resolved = Some((r.t, out.clone()));
                     handling = false;
                 }
-                Ev::Listener { name, a, b } if name == "state-after-call" && resolved.is_some() && state_after.is_none() => {
+                Ev::Listener { name, a, b } if *name == format!("state-after-call:{id}") => {
                     state_after = Some((*a, *b == 1));
                 }
-                Ev::Listener { name, a, .. } if name == "state-sample" && handling && resolved.is_none() => {
+                Ev::Listener { name, a, .. } if name == "state-sample" && handling && resolved.is_none() && cfg.drivers == 1 => {
                     rep.count("state_samples_while_handling_failure", 1);
                     if *a == 0 {
                         rep.violate("C16:connected-while-reconnecting", format!("r{id}: published state is Connected at t={}us while a reconnectable failure is being handled", r.t));
@@ -339,7 +358,7 @@ pub fn judge(cfg: &Cfg, log: &[Rec]) -> Report {
         let _ = script;
     }
     rep.count("retries", retries);
-    rep.bucket(format!("{} max={:?} retry={} pred={} wrapped={}", format!("{:?}", cfg.pol).split('(').next().unwrap_or(""), cfg.max_attempts, cfg.retry_on_reconnect, cfg.predicate, cfg.wrapped));
+    rep.bucket(format!("{} max={:?} retry={} pred={} wrapped={} clients={}", format!("{:?}", cfg.pol).split('(').next().unwrap_or(""), cfg.max_attempts, cfg.retry_on_reconnect, cfg.predicate, cfg.wrapped, cfg.drivers));
     rep.nontrivial = retries >= 1 && other_path;
     rep
 }
